@@ -147,8 +147,7 @@ func (s *System) Start() error {
 	// 守护系统上下文
 	go func() {
 		<-s.options.Context.Done()
-		s.statusLock.Lock()
-		defer s.statusLock.Unlock()
+		// stop 内部自行获取 statusLock；此处再持锁会自锁，导致之后的 Start/Stop 永久阻塞
 		_ = s.stop(false) // 无意义错误
 	}()
 	return nil
